@@ -36,6 +36,13 @@ var c06NonJSON = []string{
 	"Sat Oct  5 10:00:00.000 [initandlisten] MongoDB starting", "null", "true", "123", "-1.5e3", "\"just a string\"", "[1,2,3]", "[{\"a\":1}]", "[]",
 	"{", "}", "{\"a\":1", "{\"a\":{\"b\":[1,2", "{\"t\":{\"$date\":\"2025-01-01T00:00:00Z\"},\"c\":\"COMMAND\",\"attr\":{\"command\":{\"find\":\"c\",\"filter\":{\"a\":\"truncSecret", "{\"a\":1}}", "{\"a\":1} ]", "{\"a\":1} trailing", "{\"a\":1}{\"b\":2}", "{\"a\":1},",
 	"{'single':1}", "{a:1}", "{\"a\":01}", "{\"a\":1,}", "{\"a\":.5}", "{\"a\":+1}", "{\"a\":NaN}", "{\"a\":tru}", "{\"a\" 1}", "{\"a\":\"unterminated}", "{\"a\":\"bad\\escape\"}", "{\"a\":\"tab\tinside\"}",
+	// a UTF-8 byte order mark is not JSON white space: a line that starts (or ends) with one is not a JSON object, wherever it stands
+	"\ufeff{\"a\":1}", "\ufeff", "{\"a\":1}\ufeff", "\ufeff\ufeff{\"a\":1}", "\ufeff {\"t\":{\"$date\":\"2025-01-01T00:00:00.000Z\"},\"s\":\"I\",\"c\":\"NETWORK\",\"id\":1,\"ctx\":\"bomRAWline\",\"msg\":\"m\"}",
+	// text shaped like a log entry (starts with {"t":{"$date":" and ends with }) that is not JSON: two entries glued onto one line, an unescaped quote, a missing comma
+	"{\"t\":{\"$date\":\"2025-01-01T00:00:00.000Z\"},\"s\":\"I\",\"c\":\"NETWORK\",\"id\":1,\"ctx\":\"RAWglued1\",\"msg\":\"m\"}{\"t\":{\"$date\":\"2025-01-01T00:00:00.001Z\"},\"s\":\"I\",\"c\":\"NETWORK\",\"id\":1,\"ctx\":\"RAWglued2\",\"msg\":\"m\"}",
+	"{\"t\":{\"$date\":\"2025-01-01T00:00:00.000Z\"},\"s\":\"I\",\"c\":\"CONTROL\",\"id\":2,\"ctx\":\"RAWquote\",\"msg\":\"say \"hi\" there\"}",
+	"{\"t\":{\"$date\":\"2025-01-01T00:00:00.000Z\"},\"s\":\"I\",\"c\":\"CONTROL\",\"id\":2 \"ctx\":\"RAWcomma\",\"msg\":\"m\"}",
+	"{\"t\":{\"$date\":\"2025-01-01T00:00:00.000Z\"},\"s\":\"I\",\"c\":\"COMMAND\",\"id\":3,\"ctx\":\"RAWattr\",\"msg\":\"Slow query\",\"attr\":{\"ns\":\"db1.c\" \"command\":{\"find\":\"c\",\"filter\":{\"a\":\"rawSecret\"}}}}",
 	"// comment", "#!/bin/sh", "<xml/>", "\x00\x01\x02", "\xff\xfe{\"a\":1}", "{\"a\":1}\x00", "{\"k\":\"v\"}garbage{\"k\":\"v\"}", "---", "{}{}",
 }
 
@@ -81,6 +88,39 @@ func c06Pool(g *gen.Gen, rng *rand.Rand, n int) []c06Line {
 			tag = s[i : i+5]
 		}
 		pool = append(pool, c06Line{raw: []byte(s), obj: true, tag: tag, cls: "degenerate"})
+	}
+	// entries of this very pool with one structural character damaged (a comma or colon lost, a stray
+	// quote, a doubled closing brace, two entries on one line): still shaped like entries, not JSON
+	for i, nObj := 0, len(pool); i < n/4+12 && nObj > 0; i++ {
+		raw := append([]byte{}, pool[rng.Intn(nObj)].raw...)
+		if len(raw) < 20 || bytes.ContainsAny(raw, "\n\r") {
+			continue
+		}
+		var pos []int
+		want := []byte{',', ':', '"', '}'}[i%4]
+		for j := 1; j < len(raw)-1; j++ {
+			if raw[j] == want {
+				pos = append(pos, j)
+			}
+		}
+		switch {
+		case i%9 == 8:
+			raw = append(raw, pool[rng.Intn(nObj)].raw...)
+		case len(pos) == 0:
+			continue
+		case want == '"':
+			j := pos[rng.Intn(len(pos))]
+			raw = append(raw[:j+1], append([]byte{'"'}, raw[j+1:]...)...)
+		case want == '}':
+			raw = append(raw, '}')
+		default:
+			j := pos[rng.Intn(len(pos))]
+			raw = append(raw[:j], raw[j+1:]...)
+		}
+		if _, err := jt.ParseObject(raw); err == nil {
+			continue // the damage happened to leave a JSON object (a colon inside a string, ...)
+		}
+		pool = append(pool, c06Line{raw: raw, obj: false, cls: "damaged-entry"})
 	}
 	for _, s := range c06NonJSON {
 		_, err := jt.ParseObject([]byte(s))
